@@ -366,13 +366,13 @@ class LoadgenHarness(Harness):
         stub = ["Elasticsearch (SimES behind StaticRequest.send / StaticResponse.start)", "OS threads (one virtual loop per simulated worker process)", "track plugin: parameter source 'sim-params' and runner 'sim-op' (registered through Rally's plugin API)"]
         rules = {
             "C04": "cases = one parallel group of 1-3 generated tasks (iteration/time/source bounded, throttled by throughput/interval in ops/s or docs/s or unthrottled, "
-            "deterministic/poisson, weights, units, multi-request operations, injected HTTP errors / transport retries / time-outs with on-error=continue) on 1-3 "
+            "deterministic/poisson, weights, units, multi-request operations incl. Rally's own runners (scroll-search, create-/delete-index, ...), defaults on the parallel element, injected HTTP errors / transport retries / time-outs before the status line or while the body is read, with on-error=continue) on 1-3 "
             "simulated workers with own clock origins, seeded service times and callback interleaving; non-trivial = throttled and at least one request slower "
             "than its target interval; distinct = distinct digests of the wire history",
             "C05": "cases as for C04, biased to loop-control edges (warm-up 0, 1 iteration, periods shorter than a service time, warm-up longer than the period, "
             "ramp-up, external completion/cancel); non-trivial = a time-based task or a throttled task with at least 3 requests per client; distinct = distinct wire-history digests",
             "C18": "cases = generated composite operations (request tree depth <= 3, sequential items, concurrent streams, sleeps, max-connections) executed by 1-6 "
-            "co-located clients next to plain multi-request operations, service times drawn so that completion order differs from start order; non-trivial = a "
+            "co-located clients next to plain multi-request operations and Rally's own multi-request runners, service times drawn so that completion order differs from start order; non-trivial = a "
             "composite with >= 2 concurrent sub-requests finishing in another order than they started; distinct = distinct wire-history digests",
         }
         return {
